@@ -358,6 +358,8 @@ func newRunFor(b *abs.Built, v *execVector, outs []abs.OutEntry, pr *abs.Printed
 
 var rootObject = map[string]interface{}{"__tag": "r"}
 
+var contextBG = context.Background()
+
 func runDo(b *abs.Built, text, opName string, vars map[string]interface{}, rc *abs.RunCtx) observed {
 	res, pan := guard(func() *graphql.Result {
 		return graphql.Do(graphql.Params{Schema: b.Schema, RequestString: text, RootObject: rootObject,
